@@ -167,7 +167,10 @@ def total3(ctx) -> List[Ob]:
                     out.append(bad("TOTAL-3", fn.qualname, key, where, f"{A.unparse(n)[:50]} raises StopIteration when {A.unparse(src)[:30]} is empty"))
             elif isinstance(n, ast.Assign) and any(isinstance(t, (ast.List, ast.Tuple)) and len(t.elts) == 1 for t in n.targets):
                 key = "unpack " + A.alpha_key(n)
-                out.append(bad("TOTAL-3", fn.qualname, key, ctx.where(fn, n), f"single-target unpack '{A.unparse(n)[:50]}' raises ValueError unless exactly one element"))
+                if fo._singleton_guard(n, n.value):
+                    out.append(ok("TOTAL-3", fn.qualname, key, ctx.where(fn, n), f"single-target unpack '{A.unparse(n)[:50]}' under a guard that {A.unparse(n.value)[:30]} has exactly one element"))
+                else:
+                    out.append(bad("TOTAL-3", fn.qualname, key, ctx.where(fn, n), f"single-target unpack '{A.unparse(n)[:50]}' raises ValueError unless exactly one element"))
     return out
 
 
@@ -179,7 +182,18 @@ def total4(ctx) -> List[Ob]:
         for w in A.walk_no_nested(fn.node):
             if not isinstance(w, ast.While):
                 continue
-            key = "while " + A.alpha_key(w.test)
+            # keyed by the condition under which the loop goes on: `while C:` and
+            # `while True: ..; if not C: break; ..` (one top-level exit test) give the same key
+            cont = w.test
+            if isinstance(w.test, ast.Constant) and w.test.value is True:
+                exits_ = [s_ for s_ in w.body if isinstance(s_, ast.If) and s_.body and isinstance(s_.body[-1], ast.Break) and len(s_.body) == 1]
+                if len(exits_) == 1 and not any(isinstance(b_, ast.Break) for s_ in w.body if s_ is not exits_[0] for b_ in A.walk_no_nested(s_)):
+                    cont = ast.parse(A.cond_key(A.unparse(exits_[0].test), False), mode="eval").body
+                    key = "while " + A.cond_key(A.unparse(exits_[0].test), False)
+                else:
+                    key = "while " + A.alpha_key(w.test)
+            else:
+                key = "while " + A.alpha_key(w.test)
             where = ctx.where(fn, w)
             idiom = _termination_idiom(ctx, fn, w)
             if idiom[0]:
